@@ -178,3 +178,26 @@ func lessThanOneThird(x, total uint64) bool {
 	h3, l3 := verifrt.MulU(3, x)
 	return verifrt.Gt128(0, total, h3, l3)
 }
+
+// vhCommitObserved reports what the kernel now treats as committed at height h.
+type vhCommit struct {
+	happened  bool
+	hash      string
+	stored    bool
+	storeHash string
+}
+
+func (e *vhEnv) commitAt(h uint64) vhCommit {
+	var c vhCommit
+	if e.s.Committing.Height == h && len(e.s.CommittingHeader.Hash) > 0 {
+		c.happened = true
+		c.hash = string(e.s.CommittingHeader.Hash)
+	}
+	ch, err := e.hs.LoadCommittedHeader(e.ctx, h)
+	if err == nil {
+		c.stored = true
+		c.storeHash = string(ch.Header.Hash)
+	}
+	return c
+}
+
